@@ -131,9 +131,16 @@ impl FileSystem {
             for component in components {
                 let name = match component {
                     Component::Normal(name) => name,
-                    Component::RootDir | Component::CurDir => continue,
-                    Component::ParentDir => {
-                        if nodes.len() > 1 {
+                    Component::RootDir => continue,
+                    Component::CurDir | Component::ParentDir => {
+                        // `.` and `..` can only follow a directory
+                        if !matches!(
+                            &nodes.last().unwrap().borrow().body,
+                            FileBody::Directory { .. }
+                        ) {
+                            return Err(Errno::ENOTDIR);
+                        }
+                        if component == Component::ParentDir && nodes.len() > 1 {
                             nodes.pop();
                         }
                         continue;
